@@ -462,6 +462,55 @@ def to_sym(s, env):
     return None
 
 
+def early_reject(fx, R, f, cname):
+    """A return that precedes the box-frame test of isInside, read on witness boxes (identity rotation, half extents equal / unequal / with a zero
+    one) and witness points that ARE in the box (centre, face centres, corners, half-way points): a path that returns false for one of them
+    rejects a point of the box.  True when a verdict was reported."""
+    import itertools
+    from .. import sym, mat
+    top = f['body']['s'] if f.get('body') and f['body'].get('k') == 'Compound' else []
+    if not top or top[-1].get('k') != 'Return' or not any(x.get('k') == 'If' and any(y.get('k') == 'Return' for y in walk(x)) for x in top[:-1]):
+        return False
+    dim = int(f['cls'].rstrip('>').split(',')[-1])
+    hs = [(1, 1), (1, 3), (0, 2)] if dim == 2 else [(1, 1, 1), (1, 2, 3), (2, 2, 1), (0, 1, 1)]
+    c = [sp.Rational(1, 2), -sp.Integer(2), sp.Integer(3)][:dim]
+    inst = '%s::isInside:early-return' % cname
+    n_ = 0
+    for h in hs:
+        for signs in itertools.product((-1, 0, 1, sp.Rational(1, 2)), repeat=dim):
+            u = [s_ * h_ for s_, h_ in zip(signs, h)]
+            st = sym.State()
+            st.fields[('this', 'aabb_', 'centerPosition_')] = sp.ImmutableMatrix(c)
+            st.fields[('this', 'aabb_', 'halfWidthExtents_')] = sp.ImmutableMatrix([sp.Integer(x) for x in h])
+            st.fields[('this', 'rotation_')] = sp.ImmutableMatrix(sp.eye(dim))
+            st.locals[f['params'][0]['id']] = sp.ImmutableMatrix([a + b for a, b in zip(c, u)])
+            rd = sym.Reader(fx, call_hook=mat.hook, member_hook=mat.member_hook)
+            ctx = {'this': ('this',), 'fn': f, 'depth': 0}
+            try:
+                states = [st]
+                for x in top[:-1]:
+                    nxt = []
+                    for s2 in states:
+                        nxt += [s2] if s2.returned else rd.ex(x, s2, ctx)
+                    states = nxt
+            except sym.Unsupported as e:
+                R.undecided('B2', inst, 'statements before the box-frame test not interpretable: %s' % e)
+                return True
+            if len(states) != 1:
+                R.undecided('B2', inst, 'the guard before the box-frame test is not decided for the witness box %s and point offset %s' % (h, u))
+                return True
+            n_ += 1
+            s2 = states[0]
+            if s2.returned and s2.ret in (0, sp.false, False, sp.Integer(0)):
+                cond = ' && '.join(('' if c_[2] else '!') + c_[0] for c_ in s2.cond)
+                R.violated('B2', 'OrientedBoundingBox::isInside:early-reject', 'for the box of half extents %s (identity rotation) the point at box-frame coordinates %s - inside the box, |u_i| <= h_i on every axis - '
+                           'is rejected by the return that precedes the box-frame test (`%s`): the oriented box does not contain a point that, expressed in its frame, it contains [%s]' % (
+                               list(h), [str(x) for x in u], cond, cname), fx.rel(f['loc']), 'E-STEP')
+                return True
+    R.holds('B2', inst, 'no return before the box-frame test rejects any of %d witness points of the witness boxes' % n_, fx.rel(f['loc']), 'E-STEP')
+    return False
+
+
 def check_obb(fx, R):
     fns = fx.find(r'romea::core::OrientedBoundingBox<[^>]*>::isInside')
     if len(fns) < 4:
@@ -501,6 +550,8 @@ def check_obb(fx, R):
             if str(wrong) in str([deep_unwrap(sx(x['e'])) for x in walk(f['body']) if x.get('k') == 'Return' and x.get('e') is not None] +
                                  [deep_unwrap(sx(v['init'])) for x in walk(f['body']) if x.get('k') == 'Decl' for v in x['vars'] if v.get('init') is not None]) and "'u'" not in body_sx:
                 R.violated('B2', '%s::isInside' % cname, 'the point is expressed with R instead of R^T: containment is tested in the wrong frame (equal only for symmetric rotations)', fx.rel(f['loc']), 'E-ORD')
+            elif early_reject(fx, R, f, cname):
+                pass
             elif "'u'" not in body_sx or "'h'" not in body_sx:
                 R.undecided('B2', '%s::isInside' % cname, 'containment idiom not recognised: %s' % (r,))
             else:
@@ -661,7 +712,8 @@ def check_interval(fx, R):
                 if m(('=', '$X', ('$F', '$X', ('$G', 'interval'))), s, b):
                     got[b['$X']] = (b['$F'], b['$G'])
             step_verdict = None
-            if 'this.lower_' not in got or 'this.upper_' not in got:
+            has_control = any(x.get('k') in ('If', 'Return', 'For', 'While', 'Do', 'Switch', 'Cond') for x in walk(fc['body']))
+            if 'this.lower_' not in got or 'this.upper_' not in got or has_control:
                 # E-STEP: include() on one generic coordinate, on witness pairs of intervals
                 from .. import mini
 
@@ -672,12 +724,16 @@ def check_interval(fx, R):
                             return 'ilo'
                         if x == ('.upper', 'interval'):
                             return 'ihi'
+                        if x == ('.width', 'interval'):
+                            return ('-', 'ihi', 'ilo')
+                        if x == ('.center', 'interval'):
+                            return ('/', ('+', 'ihi', 'ilo'), 2)
                         if isinstance(x, tuple):
                             return tuple(rep(y) for y in x)
                         return x
                     return rep(t)
                 step_verdict = ('holds', 0)
-                for (il, iu) in ((0.0, 2.0), (2.0, 5.0), (0.0, 5.0), (1.5, 2.5), (4.0, 6.0), (-3.0, -2.0)):
+                for (il, iu) in ((0.0, 2.0), (2.0, 5.0), (0.0, 5.0), (1.5, 2.5), (4.0, 6.0), (-3.0, -2.0), (4.0, 4.0), (0.0, 0.0), (2.0, 2.0), (1.0, 1.0), (3.0, 3.0)):
                     env = {'this.lower_': 1.0, 'this.upper_': 3.0, 'ilo': il, 'ihi': iu}
                     try:
                         mini.Step(acc_names).call(fc['body'], env)
@@ -686,11 +742,12 @@ def check_interval(fx, R):
                         break
                     want_ = (min(1.0, il), max(3.0, iu))
                     if (env['this.lower_'], env['this.upper_']) != want_:
-                        step_verdict = ('violated', 'including [%g, %g] into [1, 3] leaves [%g, %g]; the hull is [%g, %g]' % (il, iu, env['this.lower_'], env['this.upper_'], want_[0], want_[1]))
+                        step_verdict = ('violated', 'including [%g, %g]%s into [1, 3] leaves [%g, %g]; the hull is [%g, %g]' % (
+                            il, iu, ' (zero width: a point, which the quantifier names)' if il == iu else '', env['this.lower_'], env['this.upper_'], want_[0], want_[1]))
                         break
                     step_verdict = ('holds', step_verdict[1] + 1)
                 if step_verdict[0] == 'holds':
-                    R.holds('B5', '%s::include:step' % cname, 'include() yields the hull on %d witness pairs (overlapping, nested, disjoint on either side)' % step_verdict[1], fx.rel(fc['loc']), 'E-STEP')
+                    R.holds('B5', '%s::include:step' % cname, 'include() yields the hull on %d witness pairs (overlapping, nested, disjoint on either side, zero-width intervals inside, outside and on the ends)' % step_verdict[1], fx.rel(fc['loc']), 'E-STEP')
                     continue
                 if step_verdict[0] == 'violated':
                     R.violated('B5', 'Interval::include:step', step_verdict[1] + ' [%s]' % cname, fx.rel(fc['loc']), 'E-STEP')
